@@ -51,7 +51,7 @@ async def waiter(value):
     """
     if isinstance(value, (list,tuple)):
         values = await asyncio.gather(*[waiter(v) for v in value])
-        return type(value)(values)
+        return type(value)(*values) if hasattr(value, '_fields') else type(value)(values) # a namedtuple takes separate fields
     elif isinstance(value, dict):
         values = await asyncio.gather(*[waiter(v) for v in value.values()])
         return type(value)(dict(zip(value.keys(), values))) 
